@@ -72,4 +72,4 @@ def compose_transforms(*transforms):
     if len(transforms) == 0:
         return np.eye(4)
 
-    return reduce(np.dot, reversed(transforms))
+    return np.array(reduce(np.dot, reversed(transforms)))
